@@ -432,6 +432,14 @@ fn run_ctx<Ctx: ScriptContext>(w: &World, seed: u64, ci: CtxInfo, dom: &str, nba
         thresh(2, vec![thresh(1, vec![T::pk(0), spk(1)]), spk(2), spk(3)]),
         thresh(2, vec![thresh(1, vec![T::pk(0), spk(1), spk(2)]), spk(3)]),
     ];
+    // relative lock times with BIP68-unused bits set (accepted by RelLockTime; same "meaning", different values)
+    let mut corpus = corpus;
+    for n in [1u32, 2, 65537, 0x800001, 0x400005, 0x400001, 0x410001] {
+        corpus.push(T::leaf(Tg::Older, n));
+    }
+    for n in [1u32, 2, 499_999_999, 500_000_000, 500_000_001] {
+        corpus.push(T::leaf(Tg::After, n));
+    }
     let mut corpus_ids = Vec::new();
     for t in &corpus {
         if let Some(i) = add(&mut d, t, "corpus") {
@@ -1101,6 +1109,48 @@ fn run_pol(w: &World, seed: u64, nbase: usize) -> (Dom<Concrete<Key>>, Dom<SemH>
     let mut dc: Dom<Concrete<Key>> = Dom::new("conc");
     let mut ds: Dom<SemH> = Dom::new("sem");
     let mut rng = Rng(seed ^ 0x9011c7);
+    // directed families: odds of or(), relative lock times with BIP68-unused bits ("older-junk"), arities
+    {
+        let k = |i: usize| Pol::Key(i);
+        let mut fam: Vec<Pol> = vec![
+            Pol::Or(vec![(9, k(0)), (1, k(1))]),
+            Pol::Or(vec![(1, k(0)), (9, k(1))]),
+            Pol::Or(vec![(1, k(0)), (1, k(1))]),
+            Pol::And(vec![k(2), Pol::Or(vec![(9, k(0)), (1, k(1))])]),
+            Pol::And(vec![k(2), Pol::Or(vec![(1, k(0)), (9, k(1))])]),
+            Pol::Thresh(1, vec![k(0), k(1)]),
+            Pol::Thresh(2, vec![k(0), k(1)]),
+            Pol::Thresh(1, vec![k(0), k(1), k(2)]),
+            Pol::And(vec![k(0), k(1)]),
+            Pol::And(vec![k(0), k(1), k(2)]),
+        ];
+        for n in [1u32, 2, 65537, 0x800001, 0x400005, 0x400001, 0x410001] {
+            fam.push(Pol::Older(n));
+            fam.push(Pol::Thresh(1, vec![Pol::Older(n), k(3)]));
+        }
+        for n in [1u32, 2, 499_999_999, 500_000_000, 500_000_001] {
+            fam.push(Pol::After(n));
+        }
+        let (mut idc, mut ids) = (Vec::new(), Vec::new());
+        for q in &fam {
+            if let Some(c) = to_concrete(w, q) {
+                let dump = cdump(w, &c);
+                idc.push(dc.add(c, dump, true, "older-junk/odds corpus"));
+            }
+            if let Some(s) = to_semantic(w, q) {
+                let dump = sdump(w, &s);
+                ids.push(ds.add(SemH(s, dump.clone()), dump, true, "older-junk corpus"));
+            }
+        }
+        idc.sort();
+        idc.dedup();
+        ids.sort();
+        ids.dedup();
+        dc.all_pairs(&idc);
+        ds.all_pairs(&ids);
+        dc.groups.push(idc);
+        ds.groups.push(ids);
+    }
     for _ in 0..nbase {
         let pd = 1 + rng.below(3) as u32;
         let p = gen_pol(&mut rng, pd);
